@@ -616,6 +616,15 @@ func (e *Engine) binop(op token.Token, a, b *Term, opType types.Type) *Term {
 		if isIntType(opType) && a.IsConstInt() && b.IsConstInt() {
 			return ConstInt(a.I * b.I)
 		}
+		if isIntType(opType) {
+			// x * 1 (a Duration times time.Nanosecond, a count times a unit factor)
+			if b.IsConstInt() && b.I == 1 {
+				return a
+			}
+			if a.IsConstInt() && a.I == 1 {
+				return b
+			}
+		}
 	case token.EQL:
 		return Bin("==", a, b)
 	case token.NEQ:
